@@ -31,6 +31,9 @@ ASSUMPTIONS = [
 ]
 
 LETTERS = ["ab", "cd", "ef", "gh", "ij", "kl"]
+# the same per-column alphabets in scripts whose characters are wide on a terminal (the library counts characters)
+WIDE = ["日月", "火水", "木金", "土山", "川田", "가나"]
+LETTERS = [a + w for a, w in zip(LETTERS, WIDE)]
 SGR = re.compile("\x1b\\[[0-9;]*m")
 TAG = re.compile(r"</?[a-z0-9]*>")
 
@@ -39,8 +42,11 @@ def visible(s):
     return SGR.sub("", s)
 
 
+WIDE_TABLE = [False]
+
+
 def word(rng, col, n, upper=False):
-    a = LETTERS[col]
+    a = WIDE[col] if WIDE_TABLE[0] else LETTERS[col][:2]
     w = "".join(rng.choice(a) for _ in range(n))
     return w.upper() if upper else w
 
@@ -110,7 +116,39 @@ def border_chars(name):
     return "", " ", "", 0
 
 
+class fake_tty(object):
+    """While active, sys.stdout claims to be a terminal (the output under test is still the buffered I/O)."""
+
+    def __init__(self, on):
+        self.on = on
+
+    def __enter__(self):
+        import sys
+
+        if self.on:
+            class Tty(object):
+                def __init__(self, real):
+                    self._real = real
+
+                def isatty(self):
+                    return True
+
+                def __getattr__(self, name):
+                    return getattr(self._real, name)
+
+            self.saved = sys.stdout
+            sys.stdout = Tty(sys.stdout)
+
+    def __exit__(self, *exc):
+        import sys
+
+        if self.on:
+            sys.stdout = self.saved
+        return False
+
+
 def gen_table(rng):
+    WIDE_TABLE[0] = rng.random() < 0.12
     n = rng.randint(1, 6)
     nrows = rng.randint(1, 6)
     prof = rng.choice(sorted(PROFILES))
@@ -128,6 +166,7 @@ def gen_table(rng):
     shared = (not tagged) and n >= 2 and rng.random() < 0.08
     if shared:
         # identical texts in several columns (column attribution by alphabet is not possible for these tables)
+        WIDE_TABLE[0] = False
         pool = [gen_cell(rng, 0, rng.choice(["w5", "w40", "mid", "long"])) for _ in range(3)]
         rows = [[rng.choice(pool) if rng.random() < 0.7 else gen_cell(rng, 0, "w1") for _ in range(n)] for _ in range(nrows)]
         if hdr:
@@ -141,8 +180,10 @@ def gen_table(rng):
     wmin = fixed + n
     W = rng.choice([wmin, wmin + 1, wmin + rng.randint(0, 10), rng.randint(max(20, wmin), max(200, wmin)), 80, 120, 200])
     W = max(W, wmin)
+    wide = WIDE_TABLE[0]
+    WIDE_TABLE[0] = False
     return dict(header=hdr, rows=rows, style=style, padding=padding, aligns=aligns, indent=indent, width=W, ansi=rng.random() < 0.5,
-                profile=prof, tagged=tagged, classes=classes, shared=shared)
+                profile=prof, tagged=tagged, classes=classes, shared=shared, wide=wide, tty=rng.random() < 0.3)
 
 
 def natural(case):
@@ -200,13 +241,18 @@ def judge(sh, lab, case):
         t.set_header_row(hdr)
     t.add_rows(rows)
     try:
-        t.render(io, case["indent"])
+        with fake_tty(case.get("tty")):
+            t.render(io, case["indent"])
     except Exception as e:
         sh.violate("raises", case, "Table.render raised %r (available width %d for %d columns, natural lengths %r)" % (e, avail, n, lens), classify(case, "raises"))
         return
     sh.count("renders")
     if wraps:
         sh.count("renders_with_wrapping")
+    if case.get("wide"):
+        sh.count("renders_wide_script")
+    if case.get("tty") and case["ansi"] and case["tagged"]:
+        sh.count("renders_tagged_ansi_with_stdout_tty")
     if hdr != case["header"] or rows != case["rows"]:
         sh.violate("table-modified", case, "render changed the table's header/rows")
     out = io.fetch_output()
@@ -321,6 +367,25 @@ def judge(sh, lab, case):
                         return
                     lo[c] = i if lo[c] is None else min(lo[c], i)
                     hi[c] = i if hi[c] is None else max(hi[c], i)
+        # horizontal rules of the border-less styles are drawn per column: every column's text lies under its own segment
+        if case["padding"] == " ":
+            for l in lines:
+                body = l[ind:]
+                chars = set(body) - set(" ")
+                if len(chars) != 1 or next(iter(chars)).isalnum():
+                    continue
+                segs = [(m.start() + ind, m.end() + ind) for m in re.finditer(r"\S+", body)]
+                sh.count("rule_lines_checked")
+                last = -1
+                for c in range(n):
+                    if lo[c] is None:
+                        continue
+                    k = next((j for j, (a, b) in enumerate(segs) if a <= lo[c] < b), None)
+                    if k is None or hi[c] >= segs[k][1] or k <= last:
+                        sh.violate("column-span", case, "the rule %r does not span column %d (text at offsets %d..%d, rule segments %r)" % (l[:60], c, lo[c], hi[c], segs[:8]),
+                                   classify(case, "column-span"))
+                        return
+                    last = k
         prev = ind - 1
         for c in range(n):
             if lo[c] is None:
